@@ -105,7 +105,7 @@ Proof.
   destruct o as [c u tok amt dst rcv cd cb ftok fee|src dst sq|src dst sq|c u dst sq amt].
   - destruct (transfer_chain cfg c (chains s c) u tok amt dst rcv cd cb ftok fee) as [[cs p]|] eqn:E; [|discriminate].
     inv H. intros q Hq. cbn in Hq. apply in_app_or in Hq as [Hq|[<-|[]]]; [apply HG; exact Hq|].
-    apply transfer_chain_spec in E as (_ & Hp & _). rewrite Hp. unfold ghost_ok; cbn. auto.
+    apply transfer_chain_spec in E as (_ & _ & _ & Hp & _). rewrite Hp. unfold ghost_ok; cbn. auto.
   - destruct (lookup src dst sq (packets s)) as [p|] eqn:El; [|discriminate].
     destruct (is_sent p) eqn:Es; [|discriminate].
     destruct (recv_chain cfg (chains s dst) p) as [[code cs] d] eqn:Er. inv H.
@@ -174,4 +174,243 @@ Proof.
     exists q. split; [exact Hl|]. split; [constructor|congruence].
 Qed.
 
+(** ** Histories *)
+Definition Good (s : state) : Prop := Inv cfg s /\ Ghost s.
+
+Hypothesis Hcfg : cfg_consistent cfg.
+
+Lemma step_good s o s' : Good s -> step cfg s o = Ok s' -> Good s'.
+Proof.
+  intros [HI HG] H. split; [eapply step_inv; eauto|]. destruct HI as [Hw _]. eapply step_ghost; eauto.
+Qed.
+
+Lemma apply_good s o : Good s -> Good (apply_gen recv_chain cfg s o).
+Proof.
+  intro HG. unfold apply_gen. destruct (step_gen recv_chain cfg s o) as [s'| |] eqn:E; try exact HG.
+  eapply step_good; eauto.
+Qed.
+
+Theorem run_good h : forall s, Good s -> Good (run cfg s h).
+Proof.
+  unfold run, run_gen. induction h as [|o h IH]; intros s HG; cbn; [exact HG|]. apply IH. apply apply_good. exact HG.
+Qed.
+
+(** Over any history a packet is never lost and its status only moves along
+    Sent -> (RecvOk -> AckOk | RecvErr -> Refunded). *)
+Theorem run_status h : forall s src dst sq q,
+  Good s -> lookup src dst sq (packets s) = Some q ->
+  exists q', lookup src dst sq (packets (run cfg s h)) = Some q' /\ legal_star (p_status q) (p_status q').
+Proof.
+  unfold run, run_gen. induction h as [|o h IH]; intros s src dst sq q HG Hl; cbn.
+  - exists q. split; [exact Hl|constructor].
+  - unfold apply_gen at 2. destruct (step_gen recv_chain cfg s o) as [s'| |] eqn:E.
+    + destruct (step_status s o s' src dst sq q (proj2 HG) E Hl) as (q1 & Hl1 & Hleg & _).
+      destruct (IH s' src dst sq q1 (step_good _ _ _ HG E) Hl1) as (q' & Hl' & Hstar).
+      exists q'. split; [exact Hl'|]. econstructor; eauto.
+    + apply IH; assumption.
+    + apply IH; assumption.
+Qed.
+
+(** Delivered is final: a packet acknowledged with success is never refunded by any later history;
+    a refunded packet stays refunded (it is refunded once: [p_refunded] below). *)
+Corollary delivered_final h s src dst sq q :
+  Good s -> lookup src dst sq (packets s) = Some q -> p_status q = AckOk ->
+  exists q', lookup src dst sq (packets (run cfg s h)) = Some q' /\ p_status q' = AckOk.
+Proof.
+  intros HG Hl Hst. destruct (run_status h s src dst sq q HG Hl) as (q' & Hl' & Hs). exists q'. split; [exact Hl'|].
+  rewrite Hst in Hs. apply legal_star_ackok. exact Hs.
+Qed.
+
+Corollary refunded_final h s src dst sq q :
+  Good s -> lookup src dst sq (packets s) = Some q -> p_status q = Refunded ->
+  exists q', lookup src dst sq (packets (run cfg s h)) = Some q' /\ p_status q' = Refunded.
+Proof.
+  intros HG Hl Hst. destruct (run_status h s src dst sq q HG Hl) as (q' & Hl' & Hs). exists q'. split; [exact Hl'|].
+  rewrite Hst in Hs. apply legal_star_refunded. exact Hs.
+Qed.
+
+(** Never both: in every reachable state, for every packet: nothing delivered or nothing refunded;
+    refunded packets left nothing on the destination and got back exactly what was taken, once;
+    delivered packets were never refunded; the relayer fee was paid at most once. *)
+Theorem never_both s p :
+  Ghost s -> In p (packets s) ->
+  (p_delivered p = 0 \/ p_refunded p = 0) /\ p_feepaid p <= 1 /\
+  (p_status p = Refunded -> p_delivered p = 0 /\ p_refunded p = refund_due cfg p /\ p_feepaid p = 1) /\
+  (p_status p = AckOk -> p_refunded p = 0 /\ p_delivered p = delivered_due p /\ p_feepaid p = 1) /\
+  (p_status p = RecvErr -> p_delivered p = 0) /\
+  (p_feepaid p = 1 <-> (p_status p = AckOk \/ p_status p = Refunded)).
+Proof.
+  intros HG Hin. specialize (HG p Hin). unfold ghost_ok in HG.
+  destruct (p_status p); repeat split; try (intro; discriminate); intuition (try lia; try discriminate; auto).
+Qed.
+
+(** * What the acknowledgements do to the REAL ledgers *)
+
+(** An error acknowledgement is written: no chain's ledger changed (no token or contract effect of the
+    callback is left on the destination). *)
+Theorem recv_error_no_effect s src dst sq s' q' :
+  step cfg s (Recv src dst sq) = Ok s' ->
+  lookup src dst sq (packets s') = Some q' -> p_code q' <> 0 ->
+  forall c, chains s' c = chains s c.
+Proof.
+  intros H Hl' Hc c. unfold step, step_gen in H.
+  destruct (lookup src dst sq (packets s)) as [p|] eqn:El; [|discriminate].
+  destruct (is_sent p); [|discriminate].
+  destruct (recv_chain cfg (chains s dst) p) as [[code cs] d] eqn:Er. inv H. cbn in *.
+  rewrite (lookup_update _ _ _ _ _ _ _ _ (on_recv_key code d)), El in Hl'.
+  destruct (lookup_in _ _ _ _ _ El) as [_ Hk]. rewrite Hk in Hl'. inv Hl'. cbn in Hc.
+  apply recv_chain_cases in Er as [(_ & -> & _)|(-> & _)]; [|congruence].
+  unfold upd1. destruct (Nat.eqb_spec dst c) as [->|]; reflexivity.
+Qed.
+
+(** A rejected operation changes nothing. *)
+Theorem rejected_no_effect s o : step cfg s o = Err -> apply_gen recv_chain cfg s o = s.
+Proof. intro H. unfold apply_gen. unfold step in H. rewrite H. reflexivity. Qed.
+
+Lemma holder_eqb_spec a b : reflect (a = b) (holder_eqb a b).
+Proof.
+  destruct (holder_eqb a b) eqn:E; constructor; [apply holder_eqb_eq|apply holder_eqb_neq]; exact E.
+Qed.
+
+Lemma bal_move_other cs t from to a t' h :
+  h <> from -> h <> to -> bal (move cs t from to a) t' h = bal cs t' h.
+Proof.
+  intros H1 H2. unfold move, credit, debit, set_bal, upd_bal. cbn [bal].
+  destruct (Nat.eqb t t'), (holder_eqb_spec to h), (holder_eqb_spec from h); cbn; congruence.
+Qed.
+
+Lemma bal_move_to cs t from to a : from <> to -> bal (move cs t from to a) t to = bal cs t to + a.
+Proof.
+  intro H. unfold move, credit, debit, set_bal, upd_bal. cbn [bal]. rewrite Nat.eqb_refl.
+  destruct (holder_eqb_spec to to), (holder_eqb_spec from to); cbn; congruence.
+Qed.
+
+Lemma bal_move_from cs t from to a : from <> to -> bal (move cs t from to a) t from = bal cs t from - a.
+Proof.
+  intro H. unfold move, credit, debit, set_bal, upd_bal. cbn [bal]. rewrite Nat.eqb_refl.
+  destruct (holder_eqb_spec to from), (holder_eqb_spec from from); cbn; congruence.
+Qed.
+
+(** Success acknowledgement on the source: ack status := 1, the fee goes packet contract -> relayer;
+    NOTHING else changes anywhere: in particular no escrow is released, nothing is re-minted and the
+    sender's balances are untouched (a delivered transfer is never refunded). *)
+Theorem ack_success_effect s src dst sq s' p :
+  step cfg s (Ack src dst sq) = Ok s' -> lookup src dst sq (packets s) = Some p -> p_code p = 0 ->
+  (forall c, c <> src -> chains s' c = chains s c) /\
+  out_tokens (chains s' src) = out_tokens (chains s src) /\
+  bind_amt (chains s' src) = bind_amt (chains s src) /\
+  supply (chains s' src) = supply (chains s src) /\
+  next_seq (chains s' src) = next_seq (chains s src) /\
+  fees (chains s' src) = fees (chains s src) /\
+  effects (chains s' src) = effects (chains s src) /\
+  ack_status (chains s' src) dst sq = 1 /\
+  (forall t h, h <> PacketC -> h <> Relayer -> bal (chains s' src) t h = bal (chains s src) t h) /\
+  bal (chains s' src) (fst (fees (chains s src) dst sq)) Relayer =
+    bal (chains s src) (fst (fees (chains s src) dst sq)) Relayer + snd (fees (chains s src) dst sq) /\
+  bal (chains s' src) (fst (fees (chains s src) dst sq)) PacketC =
+    bal (chains s src) (fst (fees (chains s src) dst sq)) PacketC - snd (fees (chains s src) dst sq).
+Proof.
+  intros H Hl Hc. unfold step, step_gen in H. rewrite Hl in H.
+  destruct (is_received p); [|discriminate].
+  destruct (ack_chain cfg (chains s src) p) as [[cs r]|] eqn:Er; [|discriminate]. inv H.
+  destruct (lookup_in _ _ _ _ _ Hl) as [_ Hk]. apply key_is_true in Hk as (K1 & K2 & K3).
+  unfold ack_chain in Er. destruct (p_cb p); [|discriminate]. rewrite K2, K3 in Er. clear K1 K2 K3.
+  destruct (fees (chains s src) dst sq) as [ft f] eqn:Ef.
+  match type of Er with (if ?g then _ else _) = _ => destruct g end; [|discriminate].
+  unfold give_back in Er. rewrite Hc in Er. cbn [N.eqb] in Er. injection Er as <- <-.
+  cbn [chains set_chain]. unfold upd1 at 1.
+  split.
+  { intros c Hne. unfold upd1. destruct (Nat.eqb_spec src c); [congruence|reflexivity]. }
+  unfold upd1. rewrite Nat.eqb_refl. cbn [fst snd].
+  repeat split; try reflexivity.
+  - cbn. unfold upd_cs. rewrite Nat.eqb_refl, N.eqb_refl. reflexivity.
+  - intros t h H1 H2. rewrite bal_move_other by assumption. reflexivity.
+  - rewrite bal_move_to by discriminate. reflexivity.
+  - rewrite bal_move_from by discriminate. reflexivity.
+Qed.
+
+(** Error acknowledgement on the source: ack status := 2 and the sender gets back exactly what was taken
+    from him (the escrowed amount, or the re-minted burned amount) in the token he sent. *)
+Theorem ack_error_refund s src dst sq s' p :
+  step cfg s (Ack src dst sq) = Ok s' -> lookup src dst sq (packets s) = Some p -> p_code p <> 0 ->
+  (forall c, c <> src -> chains s' c = chains s c) /\
+  ack_status (chains s' src) dst sq = 2 /\
+  bal (chains s' src) (p_token p) (User (p_sender p)) =
+    bal (chains s src) (p_token p) (User (p_sender p)) + refund_due cfg p.
+Proof.
+  intros H Hl Hc. unfold step, step_gen in H. rewrite Hl in H.
+  destruct (is_received p); [|discriminate].
+  destruct (ack_chain cfg (chains s src) p) as [[cs r]|] eqn:Er; [|discriminate]. inv H.
+  destruct (lookup_in _ _ _ _ _ Hl) as [_ Hk]. apply key_is_true in Hk as (K1 & K2 & K3).
+  unfold ack_chain in Er. destruct (p_cb p); [|discriminate]. rewrite K2, K3 in Er.
+  destruct (fees (chains s src) dst sq) as [ft f] eqn:Ef.
+  match type of Er with (if ?g then _ else _) = _ => destruct g end; [|discriminate].
+  unfold give_back, refund_due in *. rewrite K1, K2 in *. clear K1 K2 K3.
+  cbn [chains set_chain].
+  split.
+  { intros c Hne. unfold upd1. destruct (Nat.eqb_spec src c); [congruence|reflexivity]. }
+  unfold upd1. rewrite Nat.eqb_refl.
+  apply N.eqb_neq in Hc as Hc'. rewrite !Hc' in Er. destruct (p_amount p =? 0); [discriminate|].
+  destruct (p_ori p) as [t0|].
+  - destruct (bound cfg src (p_token p) dst) as [[o k]|]; [|discriminate]. injection Er as <- <-. split.
+    + cbn. unfold upd_cs. rewrite Nat.eqb_refl, N.eqb_refl. reflexivity.
+    + cbn. unfold upd_bal. rewrite !Nat.eqb_refl. cbn. rewrite ?andb_false_r, ?Nat.eqb_refl. cbn. rewrite ?Nat.eqb_refl. reflexivity.
+  - match type of Er with (if ?g then _ else _) = _ => destruct g end; [|discriminate]. injection Er as <- <-. split.
+    + cbn. unfold upd_cs. rewrite Nat.eqb_refl, N.eqb_refl. reflexivity.
+    + cbn. unfold upd_bal. rewrite !Nat.eqb_refl. cbn. rewrite ?andb_false_r, ?Nat.eqb_refl. cbn. rewrite ?Nat.eqb_refl. reflexivity.
+Qed.
+
 End WithCfg.
+
+(** * Initial states *)
+Definition init_ok (s : state) : Prop :=
+  packets s = [] /\ forall A B t, out_tokens (chains s A) t B = 0 /\ bind_amt (chains s A) t B = 0.
+
+Lemma init_good cfg s : init_ok s -> Good cfg s.
+Proof.
+  intros [Hp H0]. split; [split|].
+  - unfold wf. rewrite Hp. split; [exact I|]. intros p [].
+  - intros A B t _. rewrite Hp. cbn. destruct (trace cfg B A t) as [[loc k]|].
+    + rewrite (proj1 (H0 A B t)), (proj2 (H0 B A loc)). lia.
+    + apply H0.
+  - intros p Hin. rewrite Hp in Hin. destruct Hin.
+Qed.
+
+Theorem run_conserved cfg s0 h :
+  cfg_consistent cfg -> init_ok s0 -> conserved cfg (run cfg s0 h).
+Proof.
+  intros Hcfg Hi. destruct (run_good cfg Hcfg h s0 (init_good cfg s0 Hi)) as [[_ Hc] _]. exact Hc.
+Qed.
+
+(** * Monitor soundness: the executable conservation check of the monitor (Model/BridgeCheck.v) accepts every
+    state that satisfies the invariant, whatever the universe of chains and tokens it is evaluated on; and
+    conversely a state it accepts satisfies the equation for every triple of that universe. *)
+Lemma conserved_at_iff cfg cs ps A B t :
+  conserved_at cfg cs ps A B t = true <->
+  match trace cfg B A t with
+  | Some (loc, k) => out_tokens (cs A) t B * k = bind_amt (cs B) loc A + k * sum_contrib A B t ps
+  | None => out_tokens (cs A) t B = sum_contrib A B t ps
+  end.
+Proof.
+  unfold conserved_at. destruct (trace cfg B A t) as [[loc k]|]; apply N.eqb_eq.
+Qed.
+
+Theorem conserved_all_sound cfg U s : conserved cfg s -> conserved_all U cfg (chains s) (packets s) = true.
+Proof.
+  intro Hc. unfold conserved_all. apply forallb_forall. intros A _. apply forallb_forall. intros B _.
+  destruct (Nat.eqb_spec A B) as [->|Hne]; [reflexivity|]. cbn [orb]. apply forallb_forall. intros t _.
+  apply conserved_at_iff. apply Hc. exact Hne.
+Qed.
+
+Theorem conserved_all_complete cfg U cs ps A B t :
+  conserved_all U cfg cs ps = true -> In A (chain_ids U) -> In B (chain_ids U) -> A <> B -> In t (tokens U A) ->
+  match trace cfg B A t with
+  | Some (loc, k) => out_tokens (cs A) t B * k = bind_amt (cs B) loc A + k * sum_contrib A B t ps
+  | None => out_tokens (cs A) t B = sum_contrib A B t ps
+  end.
+Proof.
+  unfold conserved_all. intros H HA HB Hne Ht.
+  rewrite forallb_forall in H. specialize (H A HA). rewrite forallb_forall in H. specialize (H B HB).
+  destruct (Nat.eqb_spec A B); [contradiction|]. cbn [orb] in H. rewrite forallb_forall in H.
+  apply conserved_at_iff. apply H. exact Ht.
+Qed.
